@@ -24,6 +24,7 @@ type c19Name struct {
 	groups  []string // source addresses, one per client group taking part
 	burstAt time.Duration
 	burst   []int  // burst size per group
+	members []int  // number of distinct client addresses (same /24, same group) the burst of a group comes from
 	outcome string // success, nxdomain, servfail, refused, garbage, silence, conn-closed
 	viaTCP  bool   // routed to the TCP upstream (transport errors are immediate there) instead of the UDP one
 	newTTL  uint32
@@ -65,7 +66,7 @@ func c19GroupOf(q *UpQuery) int {
 }
 
 func TestVfC19Prefetch(t *testing.T) {
-	st := vfkit.Stats("TestVfC19Prefetch", "runs of 20-80 independent names: TTL in {8,12} s, entries primed for 1-3 client groups, then a burst of 1-120 concurrent hits per group at a drawn instant inside the last quarter of the lifetime; the upstream holds the refresh reply until all burst responses are collected (or 3 s), then the refresh ends as success (new TTL) / NXDOMAIN / SERVFAIL / REFUSED / garbage / silence / connection closed, over a UDP or a TCP upstream (where transport errors are immediate); oracles: every hit of the burst is answered from the old entry while the refresh is held, at most one refresh per group is in flight, after a successful refresh later hits carry the new fetch, after a failed or negative refresh the old entry is served until its expiry and not 2 s beyond, and a further hit in the window starts a new refresh (the reservation ended with the refresh); non-trivial = burst >= 2 inside the window")
+	st := vfkit.Stats("TestVfC19Prefetch", "runs of 20-80 independent names: TTL in {8,12} s, entries primed for 1-3 client groups, then a burst of 1-120 concurrent hits per group (from 1, 2 or 4 client addresses of the group) at a drawn instant inside the last quarter of the lifetime; the upstream holds the refresh reply until all burst responses are collected (or 3 s), then the refresh ends as success (new TTL) / NXDOMAIN / SERVFAIL / REFUSED / garbage / silence / connection closed, over a UDP or a TCP upstream (where transport errors are immediate); oracles: every hit of the burst is answered from the old entry while the refresh is held, at most one refresh per group is in flight, after a successful refresh later hits carry the new fetch, after a failed or negative refresh the old entry is served until its expiry and not 2 s beyond, and a further hit in the window starts a new refresh (the reservation ended with the refresh); non-trivial = burst >= 2 inside the window")
 	defer vfkit.Flush()
 	block := NextIPBlock()
 	var names sync.Map
@@ -158,6 +159,7 @@ func TestVfC19Prefetch(t *testing.T) {
 				}
 				budget -= b
 				n.burst = append(n.burst, b)
+				n.members = append(n.members, rapid.SampledFrom([]int{1, 1, 2, 4}).Draw(t, "members"))
 			}
 			n.primes = int32(ng)
 			// last quarter: (0.75 T, T). The cache clock has a granularity of one second (an entry may leave the
@@ -202,6 +204,34 @@ func TestVfC19Prefetch(t *testing.T) {
 					}
 					defer c.Close()
 					clients[g] = c
+				}
+				// further members of the same client group: other hosts of the same /24 (the group is a property of the
+				// subnet, the single-flight rule is per group, not per address)
+				extra := make([][]*UDPClient, len(n.groups))
+				for g, src := range n.groups {
+					base := src[:strings.LastIndex(src, ".")+1]
+					for k := 0; k < n.members[g]-1; k++ {
+						c, err := NewUDPClient(base+itoa(201+k), fmt.Sprintf("%s:%d", pip, ListenerPorts["udp"]))
+						if err != nil {
+							fail("udp client: %v", err)
+							return
+						}
+						defer c.Close()
+						extra[g] = append(extra[g], c)
+					}
+				}
+				member := func(g, i int) *UDPClient {
+					if k := i % n.members[g]; k > 0 {
+						return extra[g][k-1]
+					}
+					return clients[g]
+				}
+				groupResps := func(g int) []*Resp {
+					out := clients[g].All()
+					for _, c := range extra[g] {
+						out = append(out, c.All()...)
+					}
+					return out
 				}
 				serialOf := func(r *Resp) (uint32, bool) {
 					_, _, s, ok := ParseKeyed(r.Msg)
@@ -250,7 +280,7 @@ func TestVfC19Prefetch(t *testing.T) {
 				total := 0
 				for g := range n.groups {
 					for i := 0; i < n.burst[g]; i++ {
-						clients[g].Send(Query(uint16(100+i), name, 1, 1, false))
+						member(g, i).Send(Query(uint16(100+i), name, 1, 1, false))
 						total++
 					}
 				}
@@ -266,7 +296,7 @@ func TestVfC19Prefetch(t *testing.T) {
 					seen := make([]map[uint16]bool, len(n.groups))
 					for g := range n.groups {
 						seen[g] = map[uint16]bool{}
-						for _, r := range clients[g].All() {
+						for _, r := range groupResps(g) {
 							if r.Msg.ID >= 100 && !seen[g][r.Msg.ID] {
 								seen[g][r.Msg.ID] = true
 								got++
@@ -284,7 +314,7 @@ func TestVfC19Prefetch(t *testing.T) {
 						for g := range n.groups {
 							for i := 0; i < n.burst[g]; i++ {
 								if !seen[g][uint16(100+i)] {
-									clients[g].Send(Query(uint16(100+i), name, 1, 1, false))
+									member(g, i).Send(Query(uint16(100+i), name, 1, 1, false))
 									time.Sleep(200 * time.Microsecond)
 								}
 							}
@@ -302,7 +332,7 @@ func TestVfC19Prefetch(t *testing.T) {
 					time.Sleep(300 * time.Millisecond)
 					late := 0
 					for g := range n.groups {
-						for _, r := range clients[g].All() {
+						for _, r := range groupResps(g) {
 							if r.Msg.ID >= 100 && r.At.After(collected) {
 								late++
 							}
@@ -318,7 +348,7 @@ func TestVfC19Prefetch(t *testing.T) {
 					}
 				}
 				for g := range n.groups {
-					for _, r := range clients[g].All() {
+					for _, r := range groupResps(g) {
 						if r.Msg.ID < 100 {
 							continue
 						}
